@@ -55,6 +55,7 @@ struct Cx {
     states: HashSet<u64>,
     states_capped: bool,
     cap_note: Option<String>,
+    stop_requested: bool,
 }
 
 const STATE_CAP_PER_WORKER: usize = 6_000_000;
@@ -183,6 +184,17 @@ pub fn flag_cap(msg: &str) {
     CX.with(|c| {
         if let Some(cx) = c.borrow_mut().as_mut() {
             cx.cap_note = Some(msg.to_string());
+        }
+    })
+}
+
+/// Like [`flag_cap`], and additionally ends the exploration of this scenario
+/// (used when going on would exhaust a machine resource).
+pub fn flag_stop(msg: &str) {
+    CX.with(|c| {
+        if let Some(cx) = c.borrow_mut().as_mut() {
+            cx.cap_note = Some(msg.to_string());
+            cx.stop_requested = true;
         }
     })
 }
@@ -339,6 +351,7 @@ struct RunResult {
     spent: (u32, u32),
     diverged: Option<String>,
     cap_note: Option<String>,
+    stop_requested: bool,
 }
 
 fn run_one<F: Fn() -> Outcome>(
@@ -363,6 +376,7 @@ fn run_one<F: Fn() -> Outcome>(
             states: st,
             states_capped: *states_capped,
             cap_note: None,
+            stop_requested: false,
         })
     });
     QUIET.with(|q| q.set(true));
@@ -383,6 +397,7 @@ fn run_one<F: Fn() -> Outcome>(
         spent: cx.spent,
         diverged: cx.diverged,
         cap_note: cx.cap_note,
+        stop_requested: cx.stop_requested,
     }
 }
 
@@ -650,6 +665,9 @@ fn worker<F: Fn() -> Outcome + Sync>(
                 let mut c = capped.lock().unwrap();
                 if c.is_none() {
                     *c = Some(n.clone());
+                }
+                if rr.stop_requested {
+                    shared.stop.store(true, Ordering::Relaxed);
                 }
             }
             if let Some(d) = &rr.diverged {
